@@ -281,8 +281,11 @@ theorem handleFeatures_nc (f : Features) (s : St) (h : NC s) :
               · exact startSmEnable_nc _ h1
               · exact openSession_nc _ h1
 
-theorem onSmEnabled_nc (b : Bool) (s : St) (h : NC s) : NCout (onSmEnabled s b).2 ∧ NC (onSmEnabled s b).1 :=
+theorem onSmEnabled_nc (b l : Bool) (s : St) (h : NC s) : NCout (onSmEnabled s b l).2 ∧ NC (onSmEnabled s b l).1 :=
   enableAck_nc _ (nc_upd h rfl rfl)
+
+theorem sendPing_nc (s : St) (h : NC s) : NCout (sendPing s).2 ∧ NC (sendPing s).1 := by
+  unfold sendPing; split <;> exact ⟨NCout.cons (send_nc h _) NCout.nil, h⟩
 
 theorem onSmResumed_nc (s : St) (h : NC s) : NCout (onSmResumed s).2 ∧ NC (onSmResumed s).1 :=
   enableAck_nc _ (nc_upd h rfl rfl)
@@ -394,7 +397,7 @@ theorem sasl2Handle_nc (m : Used) (fr : Bool) (e : El) (s : St) (h : NC s) :
     have r3 : NCout (if b = .smEnabled then onSmEnabled r2v.1 true else (r2v.1, [])).2 ∧
         NC (if b = .smEnabled then onSmEnabled r2v.1 true else (r2v.1, [])).1 := by
       split
-      · exact onSmEnabled_nc _ _ r2.2
+      · exact onSmEnabled_nc _ _ _ r2.2
       · exact ⟨NCout.nil, r2.2⟩
     generalize (if b = .smEnabled then onSmEnabled r2v.1 true else (r2v.1, [])) = r3v at r3
     have r4 : NCout (if r = .resumed then openSession r3v.1 else (r3v.1, [])).2 ∧
@@ -422,8 +425,8 @@ theorem smResumeHandle_nc (e : El) (s : St) (h : NC s) : NCout (smResumeHandle s
 theorem smEnableHandle_nc (e : El) (s : St) (h : NC s) : NCout (smEnableHandle s e).2 ∧ NC (smEnableHandle s e).1 := by
   unfold smEnableHandle
   split
-  · rename_i resume
-    have r1 := onSmEnabled_nc resume s h
+  · rename_i resume loc
+    have r1 := onSmEnabled_nc resume loc s h
     have r2 := openSession_nc _ r1.2
     exact ⟨NCout.append r1.1 r2.1, nc_upd r2.2 rfl rfl⟩
   · have r := openSession_nc s h
@@ -526,7 +529,7 @@ theorem handleStarttls_cfg (s : St) (f : Features) : ∀ r, handleStarttls s f =
         · simp
         · dsimp only
           cfg_crush
-@[simp] theorem onSmEnabled_cfg (s : St) (b : Bool) : (onSmEnabled s b).1.cfg = s.cfg := rfl
+@[simp] theorem onSmEnabled_cfg (s : St) (b l : Bool) : (onSmEnabled s b l).1.cfg = s.cfg := rfl
 @[simp] theorem onSmResumed_cfg (s : St) : (onSmResumed s).1.cfg = s.cfg := rfl
 @[simp] theorem idleHandle'_cfg (s : St) (e : El) : (idleHandle' s e).1.cfg = s.cfg := by
   unfold idleHandle'; cfg_crush
@@ -554,6 +557,8 @@ theorem handleStarttls_cfg (s : St) (f : Features) : ∀ r, handleStarttls s f =
   unfold dispatch; split <;> simp
 @[simp] theorem recv_cfg (s : St) (e : El) : (recv s e).1.cfg = s.cfg := by
   unfold recv; cfg_crush
+@[simp] theorem sendPing_cfg (s : St) : (sendPing s).1.cfg = s.cfg := by
+  unfold sendPing; split <;> rfl
 @[simp] theorem sendIq_cfg (s : St) : (sendIq s).1.cfg = s.cfg := by
   unfold sendIq; dsimp only; split <;> simp
 @[simp] theorem step_cfg (s : St) (e : Ev) : (step s e).1.cfg = s.cfg := by
@@ -690,7 +695,7 @@ theorem starttls_clear (s : St) (e : El) (hc : s.conn = .connected) :
 
 /-- one step keeps the invariant and sends nothing but stream open / starttls / stream close in clear -/
 theorem step_safe (s : St) (e : Ev) (hreq : s.cfg.tls = .required) (hinv : Inv s)
-    (h3 : appWaits s e) :
+    (hs3 : ¬ NC s → s.sessionStarted = false) (h3 : appWaits s e) :
     (∀ o ∈ (step s e).2, o.clearOk) ∧ Inv (step s e).1 := by
   by_cases hnc : NC s
   · -- nothing can be clear, except the stream open of a new connection
@@ -730,6 +735,12 @@ theorem step_safe (s : St) (e : Ev) (hreq : s.cfg.tls = .required) (hinv : Inv s
       split
       · exact ⟨nil_ok, Or.inl hnc⟩
       · exact ⟨nil_ok, Or.inl (nc_upd hnc rfl rfl)⟩
+    | tick =>
+      simp only [step]
+      split
+      · have := sendPing_nc s hnc
+        exact ⟨allOk_of_NCout this.1, Or.inl this.2⟩
+      · exact ⟨nil_ok, Or.inl hnc⟩
     | closeTail =>
       have := disconnectFromHost_nc s hnc
       exact ⟨allOk_of_NCout this.1, Or.inl this.2⟩
@@ -766,6 +777,10 @@ theorem step_safe (s : St) (e : Ev) (hreq : s.cfg.tls = .required) (hinv : Inv s
       split
       · exact ⟨nil_ok, Or.inr hpre⟩
       · exact ⟨nil_ok, Or.inr hpre⟩
+    | tick =>
+      have hp : s.pingArmed = false := by simp [St.pingArmed, hs3 hnc]
+      simp only [step, hp]
+      exact ⟨nil_ok, Or.inr hpre⟩
     | closeTail =>
       have := disconnect_any s
       exact ⟨this.1, Or.inl this.2⟩
@@ -798,20 +813,6 @@ theorem step_safe (s : St) (e : Ev) (hreq : s.cfg.tls = .required) (hinv : Inv s
                 exact idle_clear s el hreq hc he hl
               · rw [hl]
                 exact starttls_clear s el hc
-
-/-- the invariant and the property along a whole run -/
-theorem run_safe (evs : List Ev) (s : St) (hreq : s.cfg.tls = .required) (hinv : Inv s)
-    (h3 : Along appWaits s evs) :
-    ∀ o ∈ (run s evs).2, o.clearOk := by
-  induction evs generalizing s with
-  | nil => intro o ho; cases ho
-  | cons e es ih =>
-    have hs := step_safe s e hreq hinv h3.1
-    intro o ho
-    simp only [run] at ho
-    rcases List.mem_append.mp ho with ho | ho
-    · exact hs.1 o ho
-    · exact ih (step s e).1 (by simpa using hreq) hs.2 h3.2 o ho
 
 theorem init_inv (cfg : Cfg) : Inv (init cfg) := Or.inl (nc_of_not_connected (by simp [init]))
 
@@ -919,7 +920,7 @@ theorem handleFeatures_red (s : St) (f : Features) (h : s.redirect = false) : (h
             · split
               · exact h
               · exact openSession_red _ h
-theorem onSmEnabled_red (s : St) (b : Bool) (h : s.redirect = false) : (onSmEnabled s b).1.redirect = false := h
+theorem onSmEnabled_red (s : St) (b l : Bool) (h : s.redirect = false) : (onSmEnabled s b l).1.redirect = false := h
 theorem onSmResumed_red (s : St) (h : s.redirect = false) : (onSmResumed s).1.redirect = false := h
 
 /-- the idle listener is only run on a connected socket (`recv`) -/
@@ -1031,7 +1032,7 @@ theorem smResumeHandle_red (s : St) (e : El) (h : s.redirect = false) : (smResum
 theorem smEnableHandle_red (s : St) (e : El) (h : s.redirect = false) : (smEnableHandle s e).1.redirect = false := by
   unfold smEnableHandle
   split
-  · exact openSession_red _ (onSmEnabled_red s _ h)
+  · exact openSession_red _ (onSmEnabled_red s _ _ h)
   · exact openSession_red _ h
   · exact reject_red s h
 theorem bindHandle_red (s : St) (e : El) (h : s.redirect = false) : (bindHandle s e).1.redirect = false := by
@@ -1094,6 +1095,9 @@ theorem step_red (s : St) (e : Ev) (h : s.redirect = false) : (step s e).1.redir
   | sendIq => exact sendIq_red s h
   | recvWhitespace => exact h
   | recvPartial => simp only [step]; split <;> exact h
+  | tick => simp only [step]; split
+            · unfold sendPing; split <;> exact h
+            · exact h
   | closeTail => exact disconnectFromHost_red s h
 theorem run_red (evs : List Ev) (s : St) (h : s.redirect = false) : (run s evs).1.redirect = false := by
   induction evs generalizing s with
